@@ -211,6 +211,7 @@ type c06Run struct {
 	cs       *c06Case
 	tcpLn    net.Listener
 	tcpN     atomic.Int64
+	tcpAllowed int64
 	cluster  string
 	brr      *bal_slb.BalanceRR
 	back     *backend.BfeBackend
@@ -459,8 +460,11 @@ func (r *c06Run) roundTCP(ri int, rd c06Round, rest string, tcpBase int64) (bool
 	}
 	// connects are completed by the kernel; give the accept loop a moment, then count
 	time.Sleep(3 * time.Millisecond)
-	if n := r.tcpN.Load() - tcpBase; n > int64(r.m.succNum) {
-		return true, c06Viol("late-recovery-tcp", "round %d: %d tcp connects for SuccNum=%d", ri, n, r.m.succNum)
+	// cumulative over the rounds: a late accept of an earlier round's connect can
+	// only make the count smaller, never larger than what the rounds so far allow
+	r.tcpAllowed += int64(r.m.succNum)
+	if n := r.tcpN.Load(); n > r.tcpAllowed {
+		return true, c06Viol("late-recovery-tcp", "round %d: %d tcp connects so far, SuccNum=%d allows %d", ri, n, r.m.succNum, r.tcpAllowed)
 	}
 	return false, nil
 }
